@@ -44,7 +44,7 @@ type c11Spec struct {
 	BaseDir string    `json:"basedir,omitempty"`
 	OwnMiss bool      `json:"loader_reports_misses_with_its_own_error_type,omitempty"`
 	Files   []c11File `json:"files"`
-	Entry   string    `json:"entry"` // FromFile, FromCache, FromString
+	Entry   string    `json:"entry"` // FromFile, FromCache, FromString, FromBytes, RenderTemplate{String,Bytes,File}
 	TopName string    `json:"top_name"`
 	Root    string    `json:"-"` // local kinds: temp dir
 }
@@ -62,7 +62,7 @@ func (c11Checker) ProbeNames() []string {
 func (c11Checker) Meta() CheckerMeta {
 	return CheckerMeta{
 		Level: "fault_enumeration",
-		Rule: "configurations are drawn by seed: 3..8 files in nested directories spread over 1..3 disks (same name on several disks with different markers), one loader kind per set (real FSLoader, HttpFilesystemLoader +/- baseDir, LocalFilesystemLoader +/- baseDir on a temp dir, two virtual kinds), an acyclic reference graph via include (static/lazy, with/only/if_exists), extends, import, ssi (plain/parsed) with relative, rooted and '..' names, entry through FromFile/FromCache/FromString; " +
+		Rule: "configurations are drawn by seed: 3..8 files in nested directories spread over 1..3 disks (same name on several disks with different markers), one loader kind per set (real FSLoader, HttpFilesystemLoader +/- baseDir, LocalFilesystemLoader +/- baseDir on a temp dir, two virtual kinds), an acyclic reference graph via include (static/lazy, with/only/if_exists), extends, import, ssi (plain/parsed) with relative, rooted and '..' names, entry through FromFile/FromCache/FromString/FromBytes/RenderTemplateString/RenderTemplateBytes/RenderTemplateFile; " +
 			"per configuration a fault-free run is checked exactly, then EVERY distinct Get site (disk,path) is faulted singly with get_eio (persistent and transient), read_eio_at(0/mid/len-1) and read_short(1), plus sampled pairs; " +
 			"evaluations = whole compile+execute operations; non-trivial = a fault fired or a later loader / if_exists / missing path was exercised; distinct = distinct (configuration, fault)",
 		Real: []string{"pongo2 package (FromFile/FromCache/FromString, include/extends/import/ssi tags, resolveTemplate)", "pongo2.FSLoader", "pongo2.HttpFilesystemLoader", "pongo2.LocalFilesystemLoader (real temp dir, fault-free)", "io.ReadAll"},
@@ -77,7 +77,7 @@ func (c11Checker) Meta() CheckerMeta {
 	}
 }
 
-var c11Dirs = []string{"", "a/", "a/b/", "c/"}
+var c11Dirs = []string{"", "a/", "a/b/", "c/", "tplroot/"} // (the last one is spelled like the base directories in use)
 
 var canaryDir string
 var c11TreeSeq int
@@ -101,7 +101,7 @@ func ensureCanary() error {
 			if err := os.MkdirAll(filepath.Join(d, sub, dir), 0o755); err != nil {
 				return err
 			}
-			for i := 0; i < 9; i++ {
+			for i := 0; i < 17; i++ {
 				for _, n := range []string{fmt.Sprintf("t%d.tpl", i), fmt.Sprintf("t%d.txt", i)} {
 					fn := filepath.Join(d, sub, dir, n)
 					if b, err := os.ReadFile(fn); err == nil && string(b) == "CANARY" {
@@ -252,18 +252,27 @@ func c11Gen(tp *Tapes) *c11Spec {
 		sort.Ints(f.Disks)
 		sp.Files = append(sp.Files, f)
 	}
-	sp.Entry = []string{"FromFile", "FromCache", "FromString"}[g.Draw(3)]
-	if sp.Entry == "FromString" && sp.Kind == "local" {
+	sp.Entry = []string{"FromFile", "FromCache", "FromString", "FromBytes", "RenderTemplateString", "RenderTemplateBytes", "RenderTemplateFile"}[g.Draw(7)]
+	if c11StringEntry(sp.Entry) && sp.Kind == "local" {
 		// LocalFilesystemLoader resolves the names of a location-less template against
 		// the process working directory: legitimate, but not a virtual tree
 		sp.Entry = "FromFile"
 	}
-	if sp.Entry == "FromString" {
+	if c11StringEntry(sp.Entry) {
 		// a string template has no location: keep the top file at the root so that
 		// relative names mean the same thing
 		sp.Files[0].Path = "t0.tpl"
 	}
 	return sp
+}
+
+// c11StringEntry: entry points that compile a source text which has no name and no location.
+func c11StringEntry(e string) bool {
+	switch e {
+	case "FromString", "FromBytes", "RenderTemplateString", "RenderTemplateBytes":
+		return true
+	}
+	return false
 }
 
 // c11Finish draws the references (needs sp.Root for local kinds, hence separate).
@@ -821,11 +830,42 @@ func (c11Checker) Run(tp *Tapes, opt RunOpt) *Outcome {
 			}()
 			var tpl *pongo2.Template
 			var err error
+			if strings.HasPrefix(sp.Entry, "RenderTemplate") {
+				// one-shot entry points (written with Must: a compile error arrives as panic(error))
+				var s string
+				func() {
+					defer func() {
+						if p := recover(); p != nil {
+							e, isErr := p.(error)
+							if !isErr {
+								panic(p)
+							}
+							err = e
+						}
+					}()
+					switch sp.Entry {
+					case "RenderTemplateString":
+						s, err = set.RenderTemplateString(c11Content(sp, 0, sp.Files[0].Disks[0]), pongo2.Context{"pv": "P"})
+					case "RenderTemplateBytes":
+						s, err = set.RenderTemplateBytes([]byte(c11Content(sp, 0, sp.Files[0].Disks[0])), pongo2.Context{"pv": "P"})
+					default:
+						s, err = set.RenderTemplateFile(sp.TopName, pongo2.Context{"pv": "P"})
+					}
+				}()
+				if err != nil {
+					ro.res.Err, ro.res.Failed = "render: "+err.Error(), true
+					return
+				}
+				ro.res.Out = s
+				return
+			}
 			switch sp.Entry {
 			case "FromCache":
 				tpl, err = set.FromCache(sp.TopName)
 			case "FromString":
 				tpl, err = set.FromString(c11Content(sp, 0, sp.Files[0].Disks[0]))
+			case "FromBytes":
+				tpl, err = set.FromBytes([]byte(c11Content(sp, 0, sp.Files[0].Disks[0])))
 			default:
 				tpl, err = set.FromFile(sp.TopName)
 			}
@@ -863,7 +903,7 @@ func (c11Checker) Run(tp *Tapes, opt RunOpt) *Outcome {
 		var node *c11Node
 		st := c11OK
 		topName := sp.TopName
-		if sp.Entry == "FromString" {
+		if c11StringEntry(sp.Entry) {
 			// the string is file 0's content; it has no name: references resolve from ""
 			f := sp.Files[0]
 			node = &c11Node{file: 0, disk: f.Disks[0], kids: make([]*c11Node, len(f.Refs)), empty: make([]bool, len(f.Refs))}
@@ -910,7 +950,7 @@ func (c11Checker) Run(tp *Tapes, opt RunOpt) *Outcome {
 		}
 		var b strings.Builder
 		execName := c11Resolve(sp, "", topName)
-		if sp.Entry == "FromString" {
+		if c11StringEntry(sp.Entry) {
 			execName = "" // a string template passes names on unresolved: they resolve from ""
 		}
 		if !r.exec(node, execName, c11Env{pv: "P"}, &b) {
